@@ -985,6 +985,18 @@ fn main() { let args: Vec<String> = std::env::args().skip(1).collect(); std::pro
 
 pub fn run(args: &[String]) -> i32 {
     quiet_panics();
+    if let Some(path) = arg_val(args, "--dump") {
+        // print the sub-patterns and atoms of the compiled rules
+        let src = std::fs::read_to_string(&path).expect("source file");
+        let mut c = yara_x::Compiler::new();
+        if let Err(e) = c.add_source(src.as_str()) { println!("error: {e}"); return 1; }
+        let rules = c.build();
+        let (sps, atoms, anchored) = rules.verif_c01_dump();
+        for (i, sp) in sps.iter().enumerate() { println!("sp {} {:?}", i, sp); }
+        for (i, a) in atoms.iter().enumerate() { println!("atom {} {:?}", i, a); }
+        println!("anchored {:?}", anchored);
+        return 0;
+    }
     if let Some(path) = arg_val(args, "--probe") {
         // replay: compile the given source, scan the given data, print what is reported for $a of rule r
         let src = std::fs::read_to_string(&path).expect("source file");
